@@ -30,11 +30,12 @@ def derived_diffs(q, Sref, what, lndet_alternatives=()):
     return d
 
 
-def marginal_ob(cls, R_is_one):
+def marginal_ob(cls, R_is_one, single=False):
+    """single: one requested coordinate (the size at which a `len(dims) == 1` shortcut would switch on; the generic-size run never enters it)"""
     def run():
         I = build.new_interp()
         R = D(1) if R_is_one else sym("R")
-        Dd, Dm = sym("D"), sym("Dm")
+        Dd, Dm = sym("D"), (D(1) if single else sym("Dm"))
         diag = cls == "GaussianDiagPDF"
         p = build.pdf(I, R, Dd, "p", cls=cls, args="Sigma" if diag else "full", diag=diag)
         dims = build.indices("dims", Dm, distinct=True)
@@ -48,7 +49,7 @@ def marginal_ob(cls, R_is_one):
         d += [("mu",) + tuple(x) for x in nf.diff(q.f["mu"], mref, what="marginal mu")[:5]]
         d += derived_diffs(q, Sref, "marginal")
         return d, dict(funcs=funcs_of(I))
-    return Ob(f"marginal/{cls}/R={'1' if R_is_one else 'R'}", run,
+    return Ob(f"marginal/{cls}/R={'1' if R_is_one else 'R'}" + ("/single-coordinate" if single else ""), run,
               "get_marginal(d) == N(P mu, P Sigma P') with the same selection P on rows, columns and mean (any order / subset); density derived by the constructor",
               f"{P}::{cls}.get_marginal", group="marginal")
 
@@ -110,6 +111,7 @@ def obligations(tier):
     for cls in ("GaussianPDF", "GaussianDiagPDF"):
         for r1 in (False, True):
             obs.append(marginal_ob(cls, r1))
+        obs.append(marginal_ob(cls, False, single=True))
         obs.append(all_coordinates_ob(cls))
     for wb in (False, True):
         for r1 in (False, True):
@@ -118,6 +120,6 @@ def obligations(tier):
     return obs
 
 
-FLOORS = {"group:marginal": 6, "group:linsum": 5}
+FLOORS = {"group:marginal": 8, "group:linsum": 5}
 LEVEL = "proof"
 EXPLANATION = "get_marginal (full, diagonal) and get_density_of_linear_sum interpreted on generic tensors; compared with (P mu, P Sigma P') / (W mu + b, W Sigma W') and with the Normal log-density of the result."
